@@ -1,6 +1,7 @@
 //! Text-level monitors: token positions (C12), formatter (C08/C09), crash
 //! monitors (C10/C11), source maps (C13), migrator (C23), pretty printer (C28).
 
+mod alignsyn;
 mod c0809;
 mod c12;
 mod c13;
@@ -21,6 +22,7 @@ fn main() {
         "C23" => c23::main(args),
         "C28" => c28::main(args),
         "TOOL_EMIT" => tool_emit::main(args),
+        "TOOL_SYNTH" => tool_emit::synth(args),
         p => {
             eprintln!("mon_text: unknown property {p}");
             std::process::exit(2);
